@@ -43,9 +43,9 @@ theorem joinFieldStep_spec (srcFields tf tf' : List Field) (sp : JSpec)
       simp [hname] at this
 
 /-- **join keeps the target's field names distinct and its existing fields in place** -/
-theorem C02_join_fields (srcFields : List Field) :
+theorem C02_join_fields_raw (srcFields : List Field) :
     ∀ (specs : List JSpec) (tf tf' : List Field), (tf.map Field.name).Nodup →
-      joinTargetFields srcFields specs tf = .ok tf' →
+      joinTargetFieldsRaw srcFields specs tf = .ok tf' →
       (tf'.map Field.name).Nodup ∧ ∃ added, tf' = tf ++ added ∧
         ∀ f ∈ added, ∃ sp ∈ specs, f.name = sp.name ∧
           ∃ rest, wantedField srcFields sp = .ok (f.type, rest) := by
@@ -53,12 +53,12 @@ theorem C02_join_fields (srcFields : List Field) :
   induction specs with
   | nil =>
     intro tf tf' hnd h
-    simp [joinTargetFields, pure, Except.pure] at h
+    simp [joinTargetFieldsRaw, pure, Except.pure] at h
     subst h
     exact ⟨hnd, [], by simp, by simp⟩
   | cons sp sps ih =>
     intro tf tf' hnd h
-    simp only [joinTargetFields, List.foldlM_cons, bind, Except.bind] at h
+    simp only [joinTargetFieldsRaw, List.foldlM_cons, bind, Except.bind] at h
     cases hs : joinFieldStep srcFields tf sp with
     | error e => rw [hs] at h; simp at h
     | ok mid =>
@@ -87,11 +87,67 @@ theorem C02_join_fields (srcFields : List Field) :
         · obtain ⟨sp', hsp', h1, h2⟩ := hprop f hf
           exact ⟨sp', by simp [hsp'], h1, h2⟩
 
+theorem mem_insertSpec (x : JSpec) : ∀ (l : List JSpec) (y : JSpec), y ∈ insertSpec x l → y = x ∨ y ∈ l := by
+  intro l
+  induction l with
+  | nil => intro y h; simp [insertSpec] at h; exact Or.inl h
+  | cons a as ih =>
+    intro y h
+    simp only [insertSpec] at h
+    split at h
+    · simp only [List.mem_cons] at h
+      rcases h with h | h | h
+      · exact Or.inl h
+      · exact Or.inr (by simp [h])
+      · exact Or.inr (by simp [h])
+    · simp only [List.mem_cons] at h
+      rcases h with h | h
+      · exact Or.inr (by simp [h])
+      · rcases ih y h with h' | h'
+        · exact Or.inl h'
+        · exact Or.inr (by simp [h'])
+
+theorem mem_sortSpecs : ∀ (l : List JSpec) (y : JSpec), y ∈ sortSpecs l → y ∈ l := by
+  intro l
+  induction l with
+  | nil => intro y h; simpa [sortSpecs] using h
+  | cons a as ih =>
+    intro y h
+    simp only [sortSpecs, List.foldr_cons] at h
+    rcases mem_insertSpec a _ y h with h' | h'
+    · simp [h']
+    · exact List.mem_cons_of_mem _ (ih y h')
+
+theorem mem_orderSpecs (srcFields : List Field) (specs : List JSpec) (sp : JSpec)
+    (h : sp ∈ orderSpecs srcFields specs) : sp ∈ specs := by
+  simp only [orderSpecs, List.mem_append, List.mem_filterMap] at h
+  rcases h with ⟨f, _, hf⟩ | h
+  · exact List.mem_of_find?_eq_some hf
+  · exact (List.mem_filter.mp (mem_sortSpecs _ sp h)).1
+
+/-- **join keeps the target's field names distinct and its existing fields in place**; every appended field
+comes from an entry of the specification and has the type the live table prescribes -/
+theorem C02_join_fields (srcFields : List Field) (specs : List JSpec) (tf tf' : List Field)
+    (hnd : (tf.map Field.name).Nodup) (h : joinTargetFields srcFields specs tf = .ok tf') :
+    (tf'.map Field.name).Nodup ∧ ∃ added, tf' = tf ++ added ∧
+      ∀ f ∈ added, ∃ sp ∈ specs, f.name = sp.name ∧
+        ∃ rest, wantedField srcFields sp = .ok (f.type, rest) := by
+  obtain ⟨h1, added, h2, h3⟩ := C02_join_fields_raw srcFields _ tf tf' hnd h
+  exact ⟨h1, added, h2, fun f hf => by
+    obtain ⟨sp, hsp, a, b⟩ := h3 f hf
+    exact ⟨sp, mem_orderSpecs srcFields specs sp hsp, a, b⟩⟩
+
 /-- two target fields fed by one source column are two distinct fields of the target -/
 example :
     (joinTargetFields [⟨"k", "string", ""⟩, ⟨"day", "date", "{\"format\":\"default\"}"⟩]
       [⟨"first_seen", "day", "first"⟩, ⟨"last_seen", "day", "last"⟩, ⟨"n", "day", "count"⟩]
       [⟨"k", "string", ""⟩]).toOption.map (fun fs => fs.map (fun f => (f.name, f.type))) =
     some [("k", "string"), ("first_seen", "date"), ("last_seen", "date"), ("n", "integer")] := by decide
+
+/-- entries not named like a source field are appended sorted by name, whatever order they were given in -/
+example :
+    (joinTargetFields [⟨"k", "string", ""⟩, ⟨"n", "integer", ""⟩]
+      [⟨"lo", "n", "min"⟩, ⟨"hi", "n", "max"⟩, ⟨"n", "n", "sum"⟩]
+      [⟨"k", "string", ""⟩]).toOption.map (fun fs => fs.map Field.name) = some ["k", "n", "hi", "lo"] := by decide
 
 end Df.Join
